@@ -110,7 +110,7 @@ func discharge(obs []*Obligation, opt SolveOpts) {
 		}(o)
 	}
 	wg.Wait()
-	if opt.NoRetry {
+	if opt.NoRetry || os.Getenv("GOVC_NORETRY") != "" {
 		return
 	}
 	// second chance for undecided obligations: a time-out under machine load must not become an alarm.
